@@ -607,6 +607,10 @@ class LayerModel:
     def default_name(self):
         return next((n for n, d in self.layers.items() if d == "glyphs"), None)
 
+    def in_sync(self):
+        """layercontents.plist lists exactly the current layers (in whatever order was asked for)."""
+        return self.committed is not None and sorted(map(tuple, self.committed)) == sorted(self.layers.items())
+
     def valid(self):
         dn = self.default_name()
         return dn is not None and ("public.default" not in self.layers or dn == "public.default")
@@ -768,15 +772,15 @@ class LayerHistories(FSUnit):
                 # explicit layer order: the reverse of the current one
                 order = list(m.layers)[::-1]
                 w.writeLayerContents(order)
-                m.layers = {n: m.layers[n] for n in order}
-                m.committed = [[n, dd] for n, dd in m.layers.items()]
+                m.committed = [[n, m.layers[n]] for n in order]  # only this file: the writer's default order stays
                 if len(order) > 1:
                     rec.witness("explicit layer order")
             elif kind == "ro":
-                if m.committed is None or m.committed != [[n, dd] for n, dd in m.layers.items()] or not m.valid():
+                if m.committed is None or not m.in_sync() or not m.valid():
                     return "disabled"
                 w.close()
                 w = box[0] = UFOWriter(path)
+                m.layers = {n: dd for n, dd in m.committed}  # a new writer takes the order of the file
                 rec.witness("reopened")
         except UFOLibError as e:
             after = (dict(w.layerContents), sorted(os.listdir(path)))
@@ -846,12 +850,13 @@ class LayerHistories(FSUnit):
                 disk = std_plistlib.load(f)
             if disk != m.committed:
                 rec.violation("layers:layercontents.plist-differs", "%r vs %r" % (disk, m.committed), case=hist)
-            if m.committed == [[n, dd] for n, dd in m.layers.items()] and m.valid():
+            if m.in_sync() and m.valid():
                 rec.witness("reader compared")
                 r = UFOReader(path)
                 try:
-                    if r.getLayerNames() != list(m.layers) or r.getDefaultLayerName() != m.default_name():
-                        rec.violation("layers:reader-names", "reader: %r default %r; model %r default %r" % (r.getLayerNames(), r.getDefaultLayerName(), list(m.layers), m.default_name()), case=hist)
+                    order = [n for n, dd in m.committed]
+                    if r.getLayerNames() != order or r.getDefaultLayerName() != m.default_name():
+                        rec.violation("layers:reader-names", "reader: %r default %r; model %r default %r" % (r.getLayerNames(), r.getDefaultLayerName(), order, m.default_name()), case=hist)
                     for nm, dtok in m.layers.items():
                         rec.transition()
                         gs = r.getGlyphSet(nm)
